@@ -494,3 +494,92 @@ Proof.
   - rewrite Q. split; [discriminate | intros [C _]; discriminate].
   - rewrite Q. split; [discriminate | intros [C _]; discriminate].
 Qed.
+
+(* ------------------------------------------------------------------ the command queue loses nothing *)
+Definition citems (c i : N) (os : list out) : list qitem :=
+  flat_map (fun o => match o with
+                     | OCmd c' id => if c' =? c then [QOpen i id] else []
+                     | OForce c' => if c' =? c then [QForce] else []
+                     | _ => []
+                     end) os.
+Fixpoint items (c : N) (j : nat) (oss : list (list out)) : list qitem :=
+  match oss with [] => [] | os :: t => citems c (N.of_nat j) os ++ items c (S j) t end.
+
+Lemma qfind_qset c c' q l : qfind c (qset c' q l) = if c' =? c then q else qfind c l.
+Proof.
+  induction l as [|[c0 q0] t IH]; cbn [qset qfind].
+  - destruct (c' =? c); reflexivity.
+  - destruct (c0 =? c') eqn:E; cbn [qfind].
+    + apply N.eqb_eq in E. subst c0. destruct (c' =? c); reflexivity.
+    + rewrite IH. destruct (c0 =? c) eqn:E1; [|reflexivity].
+      apply N.eqb_eq in E1. subst c0. rewrite N.eqb_sym, E. reflexivity.
+Qed.
+
+Lemma push_outs_find c i os : forall q, qfind c (push_outs i q os) = qfind c q ++ citems c i os.
+Proof.
+  unfold push_outs, citems. induction os as [|o os IH]; intros q; cbn [fold_left flat_map]; [rewrite app_nil_r; reflexivity|].
+  rewrite IH. destruct o; cbn [app]; try reflexivity.
+  - rewrite qfind_qset. destruct (c0 =? c) eqn:E.
+    + apply N.eqb_eq in E. subst c0. rewrite <- app_assoc. reflexivity.
+    + reflexivity.
+  - rewrite qfind_qset. destruct (c0 =? c) eqn:E.
+    + apply N.eqb_eq in E. subst c0. rewrite <- app_assoc. reflexivity.
+    + reflexivity.
+Qed.
+Lemma push_all_find c oss : forall j q, qfind c (push_all j q oss) = qfind c q ++ items c j oss.
+Proof.
+  induction oss as [|os t IH]; intros j q; cbn [push_all items]; [rewrite app_nil_r; reflexivity|].
+  rewrite IH, push_outs_find, <- app_assoc. reflexivity.
+Qed.
+
+(* what the connection task of c takes in one step *)
+Definition taken1 (c : N) (e : mev) (r : nres) : list qitem :=
+  match e, r with
+  | MNext c', NCmd i id => if c' =? c then [QOpen i id] else []
+  | MNext c', NForce => if c' =? c then [QForce] else []
+  | _, _ => []
+  end.
+Definition closes (c : N) (e : mev) : bool := match e with MAll (EClosed _ c') => c' =? c | _ => false end.
+
+Lemma mstep_queue m dt e c :
+  closes c e = false ->
+  taken1 c e (snd (snd (mstep m dt e))) ++ qfind c (m_q (fst (mstep m dt e))) =
+  qfind c (m_q m) ++ items c 0 (fst (snd (mstep m dt e))).
+Proof.
+  intros NC. unfold mstep. destruct (steps (m_next m) dt 0 (step_fn m e) (m_svcs m)) as [[ss oss] nx].
+  pose proof (push_all_find c oss 0 (m_q m)) as PA.
+  destruct e as [a|i a|c'].
+  - destruct a; cbn [fst snd m_q taken1 app]; try exact PA.
+    cbn [closes] in NC. rewrite qfind_qset, NC. exact PA.
+  - cbn [fst snd m_q taken1 app]. exact PA.
+  - destruct (memN c' (m_sets m)); [|cbn [fst snd m_q taken1 app]; exact PA].
+    destruct (qfind c' (push_all 0 (m_q m) oss)) as [|[i id|] rest] eqn:Q; cbn [fst snd m_q taken1].
+    + destruct (mstrong (sync ss) c' =? 0); cbn [app]; exact PA.
+    + rewrite qfind_qset. destruct (c' =? c) eqn:E; cbn [app]; [|exact PA].
+      apply N.eqb_eq in E. subst c'. rewrite <- PA, Q. reflexivity.
+    + rewrite qfind_qset. destruct (c' =? c) eqn:E; cbn [app]; [|exact PA].
+      apply N.eqb_eq in E. subst c'. rewrite <- PA, Q. reflexivity.
+Qed.
+
+Fixpoint taken (c : N) (tr : list (N * mev)) (r : list (list (list out) * nres)) : list qitem :=
+  match tr, r with
+  | (_, e) :: t, o :: rt => taken1 c e (snd o) ++ taken c t rt
+  | _, _ => []
+  end.
+Fixpoint issued (c : N) (r : list (list (list out) * nres)) : list qitem :=
+  match r with [] => [] | o :: rt => items c 0 (fst o) ++ issued c rt end.
+
+(* As long as connection c is not reported closed: the commands its connection task has taken,
+   followed by what is still queued, are exactly the commands the services issued for c, in the
+   order they were issued — nothing is lost, duplicated or reordered in the shared channel, whatever
+   the interleaving of the services and of next(). *)
+Lemma queue_conservation tr : forall m c,
+  forallb (fun de => negb (closes c (snd de))) tr = true ->
+  taken c tr (mrun m tr) ++ qfind c (m_q (mfinal m tr)) = qfind c (m_q m) ++ issued c (mrun m tr).
+Proof.
+  induction tr as [|[dt e] tr IH]; intros m c NC; cbn [mrun mfinal taken issued]; [rewrite app_nil_r; reflexivity|].
+  cbn [forallb snd] in NC. apply andb_true_iff in NC. destruct NC as [NC1 NC]. apply negb_true_iff in NC1.
+  pose proof (mstep_queue m dt e c NC1) as MQ. specialize (IH (fst (mstep m dt e)) c NC).
+  destruct (mstep m dt e) as [m' o]. cbn [fst snd taken issued] in *.
+  rewrite <- app_assoc, IH, app_assoc, MQ, <- app_assoc. reflexivity.
+Qed.
